@@ -117,7 +117,7 @@ def main():
         for name in ("rules_manager",) if len(ev) % 7 else ("rules_manager", "automated"):
             m = SyntheticRuleMatcher(copy.deepcopy(dbs[name]), dict(v), select="all", ranking="ion_priority")
             sols = m.match()
-            add({"ev": "match", "db": name, "data": v,
+            add({"ev": "match", "db": name, "data": v, "natoms": sum(x for k_, x in v.items() if k_ != "Q"),
                  "solutions": [[{"smiles": x["smiles"], "ratio": x["Ratio"]} for x in s] for s in sols]})
     # single_impute on synthetic entries: which molecules get appended where
     sample = rng.sample(uniq, min(len(uniq), 400 if tier == "quick" else 4000))
